@@ -580,6 +580,10 @@ fn parts(ctx: &Ctx) -> Vec<PartSpec> {
                 v.push(PartSpec::new(&format!("histories-len5-3clients-buffer{}-shard{}", bn, s), json!({"len": 5, "clients": 3, "buffer": bj, "dev": if bv == Some(1024) { 2 } else { 1 }, "devlen": 4, "shard": s, "shards": shards})).budget(b));
             }
         }
+        if ctx.quick() && (bv == Some(1) || bv == Some(2)) {
+            // two deviating answers on the shortest fan-out histories: partial write followed by would-block etc.
+            v.push(PartSpec::new(&format!("histories-len3-1client-buffer{}-dev2", bn), json!({"len": 3, "clients": 1, "buffer": bj, "dev": 2, "devlen": 3, "shard": 0, "shards": 1})).budget(b));
+        }
         v.push(PartSpec::new(&format!("backpressure-buffer{}", bn), json!({"bp": true, "buffer": bj})).budget(120.0));
     }
     for (i, p) in v.iter_mut().enumerate() {
